@@ -102,7 +102,7 @@ impl Property for C03 {
     }
     fn tape_len(&self, tier: Tier) -> usize { tier.pick(250, 400) }
     fn cases(&self, tier: Tier) -> u32 { tier.pick(60_000, 1_500_000) }
-    fn required_labels(&self, _tier: Tier) -> Vec<&'static str> { vec!["fmt:anm", "fmt:std", "fmt:msg", "fmt:end", "fmt:mission", "fmt:ecl", "compile:ok", "compile:rejected", "kind:boundary", "kind:general", "many", "instrs-compared", "metas-compared"] }
+    fn required_labels(&self, _tier: Tier) -> Vec<&'static str> { vec!["fmt:anm", "fmt:std", "fmt:msg", "fmt:end", "fmt:mission", "fmt:ecl", "compile:ok", "compile:rejected", "kind:boundary", "kind:general", "many", "instrs-compared", "typed-args-compared", "metas-compared"] }
     fn max_discard_fraction(&self) -> f64 { 0.05 }
 
     fn fixed_cases(&self, tier: Tier, _known: &Known) -> Vec<Value> {
@@ -123,7 +123,7 @@ impl Property for C03 {
             return json!({"kind": "general", "fmt": fmt.name(), "game": game, "text": f.text});
         }
         let f = gen_c03_file(tape, fmt, game, 0);
-        let scripts: Vec<Value> = f.scripts.iter().map(|s| Value::Array(s.iter().map(|i| json!({"time": i.time, "opcode": i.opcode, "blob": crate::props::c16::hex_encode(&i.blob), "mask": i.mask, "arg0": i.arg0})).collect())).collect();
+        let scripts: Vec<Value> = f.scripts.iter().map(|s| Value::Array(s.iter().map(|i| json!({"time": i.time, "opcode": i.opcode, "blob": crate::props::c16::hex_encode(&i.blob), "mask": i.mask, "arg0": i.arg0, "typed": i.typed.as_ref().map(|(sig, vals)| json!({"sig": sig, "args": vals}))})).collect())).collect();
         json!({"kind": "boundary", "fmt": fmt.name(), "game": game, "text": f.text, "scripts": scripts})
     }
 
@@ -190,7 +190,19 @@ impl Property for C03 {
                     let mut diffs = vec![];
                     if r["time"].as_i64() != Some(gi.time as i64) { diffs.push(format!("time {} -> {}", r["time"], gi.time)); }
                     if r["opcode"].as_i64() != Some(gi.opcode as i64) { diffs.push(format!("opcode {} -> {}", r["opcode"], gi.opcode)); }
-                    if crate::props::c16::hex_decode(r["blob"].as_str().unwrap_or("")) != gi.args_blob { diffs.push(format!("blob of {} bytes -> {} bytes", r["blob"].as_str().unwrap_or("").len() / 2, gi.args_blob.len())); }
+                    if let Some(ty) = r.get("typed").filter(|t| !t.is_null()) {
+                        // a typed call: decode the written bytes with the harness's own reading of the signature
+                        ctx.label("typed-args-compared");
+                        if let Ok(sig) = crate::model::codec::Sig::parse(ty["sig"].as_str().unwrap_or("")) {
+                            let enc = crate::model::codec::Encoded { blob: gi.args_blob.clone(), mask: 0, extra_arg: gi.extra_arg };
+                            match crate::model::codec::decode(&sig, &enc) {
+                                Err(e) => diffs.push(format!("args: the written bytes {:02x?} do not decode under {}: {}", gi.args_blob, sig.print(), e)),
+                                Ok(args) => for (k, (want, got)) in ty["args"].as_array().cloned().unwrap_or_default().iter().zip(&args).enumerate() {
+                                    if let (Some(w), crate::model::codec::Arg::I(g2)) = (want.as_i64(), got) { if w != *g2 as i64 { diffs.push(format!("argument #{} of ins_{} ({}): requested {} -> written {}", k, gi.opcode, sig.print(), w, g2)); } }
+                                },
+                            }
+                        }
+                    } else if crate::props::c16::hex_decode(r["blob"].as_str().unwrap_or("")) != gi.args_blob { diffs.push(format!("blob of {} bytes -> {} bytes", r["blob"].as_str().unwrap_or("").len() / 2, gi.args_blob.len())); }
                     if let Some(m) = r["mask"].as_i64() { if m != gi.param_mask as i64 { diffs.push(format!("mask {} -> {}", m, gi.param_mask)); } }
                     if let Some(a) = r["arg0"].as_i64() { if a != gi.extra_arg.map_or(0, |x| x as i64) { diffs.push(format!("arg0 {} -> {:?}", a, gi.extra_arg)); } }
                     if !diffs.is_empty() {
